@@ -195,7 +195,9 @@ static Outcome run_one(const Case &c) {
       for (size_t i = 0; i < VS.size(); i++) {
         if ((pass == 0) != ((int)i == REF)) continue;
         uint8_t out[16];
-        if (VS[i].aes((const uint8_t *)key.data(), klen, (const uint8_t *)blk.data(), out)) {
+        Buf kb(klen, (int)((seed >> 5) & 15));  // the key buffer may sit at any address
+        memcpy(kb.p, key.data(), klen);
+        if (VS[i].aes(kb.p, klen, (const uint8_t *)blk.data(), out)) {
           o.fail("aes-expand-failed", "crypto_aes_key_expand failed");
           return o;
         }
@@ -229,7 +231,9 @@ static Outcome run_one(const Case &c) {
         Buf in(len, align), out(len, oalign);
         memcpy(in.p, data.data(), len);
         uint8_t *op_ = inplace ? in.p : out.p;
-        if (VS[i].ctr((const uint8_t *)key.data(), klen, nonce, skip, in.p, op_, cuts.data(), cuts.size())) {
+        Buf kb(klen, (int)((seed >> 5) & 15));
+        memcpy(kb.p, key.data(), klen);
+        if (VS[i].ctr(kb.p, klen, nonce, skip, in.p, op_, cuts.data(), cuts.size())) {
           o.fail("ctr-init-failed", "crypto_aesctr_init failed");
           return o;
         }
